@@ -1,6 +1,8 @@
 package main
 
 import (
+	"go/constant"
+	"go/types"
 	"sort"
 	"fmt"
 	"go/token"
@@ -20,6 +22,14 @@ type tplRoot struct {
 	end   int // stack depth when the template falls out of its end
 	// inputs: concrete AST records for the parameters whose shape the grammar constrains (nil: all parameters free).
 	inputs func() []map[string]tVal
+	// pred: sub-compilations to execute instead of leaving a hole, decided per call from the argument (nil: none)
+	pred func(short string, arg tVal) bool
+	// name: obligation key when one function is explored under two set-ups ("" = fn)
+	name string
+}
+
+func R(fn string, entry, end int, inputs func() []map[string]tVal) tplRoot {
+	return tplRoot{fn: fn, entry: entry, end: end, inputs: inputs}
 }
 
 // The alternatives of the grammar for the AST nodes whose invariants the lowering relies on. Queries, terms and strings
@@ -153,12 +163,56 @@ func callInputs() []map[string]tVal {
 	return out
 }
 
+func tconst(c *Ctx, name string) tVal {
+	if o, ok := c.Gojq.Types.Scope().Lookup(name).(*types.Const); ok {
+		if v, exact := constant.Int64Val(o.Val()); exact {
+			return tVal{k: tvInt, i: int(v)}
+		}
+	}
+	return tVal{k: tvUnknown, desc: name}
+}
+
+var tplCtx *Ctx
+
+// T[k]? with T = .a (one index suffix before the optional one), for each index form that carries a query
+func optIndexInputs() []map[string]tVal {
+	var out []map[string]tVal
+	key := topaque("query:key")
+	key2 := topaque("query:key2")
+	for _, ix := range []tVal{
+		rec("Index", "Start", key),
+		rec("Index", "Start", key, "IsSlice", tbool(true)),
+		rec("Index", "End", key, "IsSlice", tbool(true)),
+		rec("Index", "Start", key, "End", key2, "IsSlice", tbool(true)),
+	} {
+		prefix := rec("Suffix", "Index", rec("Index", "Name", tstr("a")))
+		e := rec("Term", "Type", tconst(tplCtx, "TermTypeIdentity"), "SuffixList", tlist(prefix, rec("Suffix", "Index", ix)))
+		out = append(out, map[string]tVal{"e": e, "s": rec("Suffix", "Optional", tbool(true))})
+	}
+	return out
+}
+
+// execute what the lowering builds itself (terms and queries constructed in the code) and the index machinery; leave the
+// caller's own AST (the prefix term, the key queries) as holes
+func optIndexPred(short string, arg tVal) bool {
+	switch short {
+	case "compileTry", "compileIndex":
+		return true
+	case "compileQuery", "compileTerm":
+		return arg.k == tvAST && arg.astLit != nil
+	}
+	return false
+}
+
 var tplRoots = []tplRoot{
-	{"compileComma", 1, 1, nil}, {"compileAlt", 1, 1, nil}, {"compileQueryUpdate", 1, 1, nil}, {"compileBind", 1, 1, bindInputs}, {"compilePattern", 1, 0, patternInputs},
-	{"compileIf", 1, 1, nil}, {"compileTry", 1, 1, nil}, {"compileReduce", 1, 1, nil}, {"compileForeach", 1, 1, nil}, {"compileLabel", 1, 1, nil},
-	{"compileBreak", 1, 1, nil}, {"compileTerm", 1, 1, nil}, {"compileIndex", 1, 1, indexInputs}, {"compileFunc", 1, 1, funcInputs}, {"compileObject", 1, 1, objectInputs},
-	{"compileObjectKeyVal", 0, 2, keyvalInputs}, {"compileArray", 1, 1, nil}, {"compileUnary", 1, 1, nil}, {"compileTermSuffix", 1, 1, nil},
-	{"compileCall", 1, 1, callInputs}, {"compileCallPc", 1, 1, nil}, {"compileFuncDef", 1, 1, nil}, {"compileQuery", 1, 1, nil},
+	R("compileComma", 1, 1, nil), R("compileAlt", 1, 1, nil), R("compileQueryUpdate", 1, 1, nil), R("compileBind", 1, 1, bindInputs), R("compilePattern", 1, 0, patternInputs),
+	R("compileIf", 1, 1, nil), R("compileTry", 1, 1, nil), R("compileReduce", 1, 1, nil), R("compileForeach", 1, 1, nil), R("compileLabel", 1, 1, nil),
+	R("compileBreak", 1, 1, nil), R("compileTerm", 1, 1, nil), R("compileIndex", 1, 1, indexInputs), R("compileFunc", 1, 1, funcInputs), R("compileObject", 1, 1, objectInputs),
+	R("compileObjectKeyVal", 0, 2, keyvalInputs), R("compileArray", 1, 1, nil), R("compileUnary", 1, 1, nil), R("compileTermSuffix", 1, 1, nil),
+	R("compileCall", 1, 1, callInputs), R("compileCallPc", 1, 1, nil), R("compileFuncDef", 1, 1, nil), R("compileQuery", 1, 1, nil),
+	// the optional suffix applied to an index with a query key: T[k]?  — the sub-compilations of the suffix are executed so
+	// that the key query's hole is visible to the routing analysis
+	{fn: "compileTermSuffix", entry: 1, end: 1, inputs: optIndexInputs, pred: optIndexPred, name: "compileTermSuffix/optional-index"},
 }
 
 // tplRootInline: sub-compilations additionally executed (not left as holes) for the roots that are given concrete patterns,
@@ -178,6 +232,7 @@ func ruleC01Template(c *Ctx, r *Rep) {
 		return
 	}
 	debug := os.Getenv("VERIF_TPL_DEBUG")
+	tplCtx = c
 	totalVariants, totalUnsupported := 0, 0
 	for _, root := range tplRoots {
 		fd := c.Decl(c.Gojq, "compiler."+root.fn)
@@ -195,6 +250,7 @@ func ruleC01Template(c *Ctx, r *Rep) {
 			inl[k] = true
 		}
 		var variants []tplVariant
+		tplCurrentPred = root.pred
 		if root.inputs == nil {
 			variants = tplExplore(c, fd, nil, inl, 3000)
 		} else {
@@ -204,7 +260,7 @@ func ruleC01Template(c *Ctx, r *Rep) {
 					for _, f := range fd.Type.Params.List {
 						for _, nm := range f.Names {
 							if v, ok := in[nm.Name]; ok {
-								env.define(run.info.Defs[nm], v)
+								env.define(run.info.Defs[nm], deepCopy(v))
 							}
 						}
 					}
@@ -225,8 +281,19 @@ func ruleC01Template(c *Ctx, r *Rep) {
 			if msg == "" {
 				msg = tplSiblingRegions(v.HoleLog)
 			}
-			if debug == root.fn {
+			if msg == "" {
+				msg = tplRouteCheck(v.Items, root)
+			}
+			if debug == root.fn || (debug != "" && debug == root.name) {
 				fmt.Fprintf(os.Stderr, "%s | %s | %s\n", tplRender(v.Items), msg, strings.Join(v.Choices, " "))
+				if seq, why := tplToBC(v.Items); why == "" {
+					rr := tplRoute(v.Items, seq, root.entry)
+					for i, it := range v.Items {
+						if it.isHole {
+							fmt.Fprintf(os.Stderr, "     hole[%d] %s fn=%s arg=%s desc=%s  <- %s\n", i, it.ins.Hole, it.fn, it.arg, it.argDesc, rr.input[i])
+						}
+					}
+				}
 			}
 			if msg == "" {
 				ok++
@@ -237,6 +304,9 @@ func ruleC01Template(c *Ctx, r *Rep) {
 		totalVariants += len(variants)
 		totalUnsupported += unsup
 		key := "tpl:" + root.fn
+		if root.name != "" {
+			key = "tpl:" + root.name
+		}
 		switch {
 		case firstBad != "":
 			r.Bad(key, fd.Pos(), "%s emits an inconsistent template: %s — template [%s] for the shape {%s} (%d of %d variants verify)", root.fn, firstBad, firstBadTpl, firstBadChoices, ok, len(variants)-unsup)
@@ -694,4 +764,312 @@ func tplAltState(items []tplItem, seq []bcIns) string {
 		}
 	}
 	return ""
+}
+
+// ---------------------------------------------------------------------------------------------------------------------
+// Input routing: which value does each sub-query see as `.`?
+
+// tplRoute is an abstract interpretation of one template over symbolic values: IN (the value the construct is applied
+// to), out#k (an output of the sub-compilation at index k), val#k (the result of instruction k), pc:k (a closure), and ?
+// (disagreeing values at a join). It returns, for every hole, the symbolic value it consumes.
+type tplRouteRes struct {
+	input map[int]string // hole index -> symbolic input
+	body  map[int]string // opscope index -> symbolic input of the function body (from an eager opcallpc), "" if unknown
+}
+
+func tplRoute(items []tplItem, seq []bcIns, entryDepth int) tplRouteRes {
+	n := len(seq)
+	res := tplRouteRes{input: map[int]string{}, body: map[int]string{}}
+	type st struct {
+		stack []string
+		vars  map[string]string
+	}
+	cloneSt := func(s *st) *st {
+		c := &st{stack: append([]string(nil), s.stack...), vars: map[string]string{}}
+		for k, v := range s.vars {
+			c.vars[k] = v
+		}
+		return c
+	}
+	in := make([]*st, n+1)
+	join := func(pc int, s *st) bool {
+		if pc < 0 || pc > n {
+			return false
+		}
+		if in[pc] == nil {
+			in[pc] = cloneSt(s)
+			return true
+		}
+		changed := false
+		t := in[pc]
+		if len(t.stack) != len(s.stack) {
+			return false // depth mismatches are the verifier's business
+		}
+		for i := range t.stack {
+			if t.stack[i] != s.stack[i] && t.stack[i] != "?" {
+				t.stack[i] = "?"
+				changed = true
+			}
+		}
+		for k, v := range s.vars {
+			if old, ok := t.vars[k]; !ok {
+				t.vars[k] = v
+				changed = true
+			} else if old != v && old != "?" {
+				t.vars[k] = "?"
+				changed = true
+			}
+		}
+		return changed
+	}
+	run := func(start int, entry *st) {
+		work := []int{start}
+		join(start, entry)
+		for steps := 0; len(work) > 0 && steps < 200000; steps++ {
+			pc := work[len(work)-1]
+			work = work[:len(work)-1]
+			if pc >= n || in[pc] == nil {
+				continue
+			}
+			s := cloneSt(in[pc])
+			ins := seq[pc]
+			pop := func() string {
+				if len(s.stack) == 0 {
+					return "?"
+				}
+				v := s.stack[len(s.stack)-1]
+				s.stack = s.stack[:len(s.stack)-1]
+				return v
+			}
+			push := func(v string) { s.stack = append(s.stack, v) }
+			next := []int{pc + 1}
+			switch ins.Op {
+			case "hole":
+				top := "?"
+				if ins.HolePop > 0 && len(s.stack) > 0 {
+					top = s.stack[len(s.stack)-1]
+				}
+				if ins.HolePop > 0 {
+					if old, ok := res.input[pc]; ok && old != top {
+						res.input[pc] = "?"
+					} else {
+						res.input[pc] = top
+					}
+				}
+				for i := 0; i < ins.HolePop; i++ {
+					pop()
+				}
+				for i := 0; i < ins.HolePush; i++ {
+					if ins.HolePop == ins.HolePush && strings.HasSuffix(ins.Hole, "…") {
+						push(top) // second slot of a long sub-compilation: identity
+					} else {
+						push(fmt.Sprintf("out#%d", pc))
+					}
+				}
+			case "oppush", "opconst":
+				if ins.Op == "opconst" {
+					pop()
+				}
+				push(fmt.Sprintf("const#%d", pc))
+			case "oppop", "opjumpifnot", "opappend":
+				pop()
+				if ins.Op == "opjumpifnot" {
+					next = append(next, ins.Target)
+				}
+			case "opdup":
+				v := pop()
+				push(v)
+				push(v)
+			case "opload":
+				if v, ok := s.vars[ins.VarName]; ok && ins.VarName != "" {
+					push(v)
+				} else {
+					push("var:" + ins.VarName)
+				}
+			case "opstore":
+				v := pop()
+				if ins.VarName != "" {
+					s.vars[ins.VarName] = v
+				}
+			case "opforklabel":
+			case "opfork", "opforktrybegin", "opforkalt":
+				next = append(next, ins.Target)
+			case "opjump":
+				next = []int{ins.Target}
+			case "opbacktrack", "opret":
+				next = nil
+			case "oppushpc":
+				push(fmt.Sprintf("pc:%d", ins.Target))
+			case "opcallpc":
+				clo := pop()
+				x := pop()
+				if strings.HasPrefix(clo, "pc:") {
+					var t int
+					fmt.Sscanf(clo, "pc:%d", &t)
+					if old, ok := res.body[t]; ok && old != x {
+						res.body[t] = "?"
+					} else {
+						res.body[t] = x
+					}
+				}
+				push(fmt.Sprintf("out#%d", pc))
+			case "opcall":
+				for i := 0; i < ins.ArgCnt+1; i++ {
+					pop()
+				}
+				push(fmt.Sprintf("val#%d", pc))
+				if ins.NoReturn {
+					next = nil
+				}
+			case "opobject":
+				for i := 0; i < 2*ins.ArgCnt; i++ {
+					pop()
+				}
+				push(fmt.Sprintf("val#%d", pc))
+			case "opcallrec":
+				pop()
+				push(fmt.Sprintf("val#%d", pc))
+			default:
+				eff, ok := bcEffects[ins.Op]
+				if ok {
+					for i := 0; i < eff[0]; i++ {
+						pop()
+					}
+					for i := 0; i < eff[1]; i++ {
+						push(fmt.Sprintf("val#%d", pc))
+					}
+				}
+			}
+			for _, t := range next {
+				if t >= 0 && t <= n && join(t, s) {
+					work = append(work, t)
+				}
+			}
+		}
+	}
+	entry := &st{vars: map[string]string{}}
+	for i := 0; i < entryDepth; i++ {
+		entry.stack = append(entry.stack, "IN")
+	}
+	run(0, entry)
+	// function bodies: entered at opscope with the value an eager call passed (callee-determined otherwise)
+	for round := 0; round < 4; round++ {
+		for i, ins := range seq {
+			if ins.Op != "opscope" || in[i] != nil {
+				continue
+			}
+			// the closure pc points at the scope instruction or just before it (lazy jump slot): accept both
+			x, ok := res.body[i]
+			if !ok {
+				x, ok = res.body[i-1]
+			}
+			if !ok {
+				x = "CALLEE"
+			}
+			e := &st{vars: map[string]string{}}
+			// closures see the variables of the enclosing flow as they were when the closure was created; keep those that
+			// are assigned exactly once in the whole template
+			e.stack = append(e.stack, x)
+			for k := 0; k < ins.Scope[1]; k++ {
+				e.stack = append(e.stack, "param")
+			}
+			run(i, e)
+		}
+	}
+	return res
+}
+
+
+// tplRouteIN: the sub-queries that jq evaluates against the input of the construct itself (AST field or parameter names of
+// the lowering function; the parameter name of a field access does not matter).
+var tplRouteIN = map[string][]string{
+	"compileComma": {"l", "r"}, "compileAlt": {"l", "r"}, "compileIf": {"Cond", "Then", "Else"}, "compileTry": {"Body"},
+	"compileReduce": {"Start", "Query"}, "compileForeach": {"Start", "Query"}, "compileBind": {"l", "r"},
+	"compileArray": {"Query"}, "compileUnary": {"Term"}, "compileLabel": {"Body"}, "compileObjectKeyVal": {"KeyQuery", "Val"},
+	"compileQuery": {"Term", "Left"}, "compileIndex": {"e"}, "compileTermSuffix": {"e"},
+}
+
+// tplRouteCheck compares the symbolic input of every identifiable sub-query hole with jq's rule for the construct.
+func tplRouteCheck(items []tplItem, root tplRoot) string {
+	seq, why := tplToBC(items)
+	if why != "" {
+		return ""
+	}
+	rr := tplRoute(items, seq, root.entry)
+	field := func(arg string) string {
+		if i := strings.LastIndex(arg, "."); i >= 0 {
+			return arg[i+1:]
+		}
+		return arg
+	}
+	leftEnd := -1 // last slot of the Left hole of a pipe in the root frame
+	for i, it := range items {
+		if it.isHole && it.chain == root.fn && it.fn == "compileQuery" && field(it.arg) == "Left" {
+			leftEnd = i
+			if i+1 < len(items) && items[i+1].isHole && strings.HasSuffix(items[i+1].ins.Hole, "…") {
+				leftEnd = i + 1
+			}
+		}
+	}
+	for i, it := range items {
+		if !it.isHole || strings.HasSuffix(it.ins.Hole, "…") || it.holePop == 0 {
+			continue
+		}
+		got, ok := rr.input[i]
+		if !ok {
+			continue // not reached by the flow that was interpreted
+		}
+		want, what := "", ""
+		switch {
+		case strings.HasPrefix(it.argDesc, "<query:"):
+			want, what = "IN", "the "+strings.Trim(it.argDesc, "<>")+" of the construct"
+		case it.chain == root.fn:
+			for _, f := range tplRouteIN[root.fn] {
+				if field(it.arg) == f {
+					want, what = "IN", it.arg
+				}
+			}
+			if root.fn == "compileQuery" && field(it.arg) == "Right" && it.ins.Hole == "compileQuery" {
+				what = it.arg + " (right-hand side of a pipe)"
+				if leftEnd >= 0 {
+					want = fmt.Sprintf("out#%d", leftEnd)
+					if strings.HasSuffix(items[leftEnd].ins.Hole, "…") {
+						want = fmt.Sprintf("out#%d", leftEnd-1)
+					}
+				} else {
+					want = "IN"
+				}
+			}
+		case strings.Contains(it.chain, "compileCall>compileCallInternal>") || strings.Contains(it.chain, "compileFunc>compileCallInternal>"):
+			// an argument of a native: evaluated eagerly against the input of the call
+			if strings.HasPrefix(it.chain, root.fn) && (root.fn == "compileCall" || root.fn == "compileIndex" || root.fn == "compileFunc" || root.fn == "compileQuery") {
+				want, what = "IN", "an argument of a native function"
+			}
+		}
+		if want == "" || got == want || strings.HasPrefix(got, "var:") {
+			continue // var:… is a slot filled outside the template (a parameter of the lowering function): not decidable here
+		}
+		return fmt.Sprintf("[%d] %s is evaluated against %s, not against %s (%s): jq evaluates it against %s", i, what, describeTerm(got, items), describeTerm(want, items), it.chain,
+			map[bool]string{true: "the input of the whole construct", false: "the output of the left-hand side"}[want == "IN"])
+	}
+	return ""
+}
+
+func describeTerm(t string, items []tplItem) string {
+	switch {
+	case t == "IN":
+		return "the construct's input"
+	case t == "?":
+		return "different values on different paths"
+	case strings.HasPrefix(t, "out#"):
+		var k int
+		fmt.Sscanf(t, "out#%d", &k)
+		if k >= 0 && k < len(items) && items[k].isHole {
+			return fmt.Sprintf("the output of ⟨%s %s⟩", items[k].ins.Hole, items[k].arg)
+		}
+		return "the output of instruction " + t[4:]
+	case strings.HasPrefix(t, "val#"), strings.HasPrefix(t, "const#"):
+		return "the result of instruction " + t[strings.Index(t, "#")+1:]
+	}
+	return t
 }
